@@ -106,6 +106,24 @@ func c13(c *q.Ctx) {
 		c.Effect(pm, q.Eff{Spec: "Map.Delete", Arg: 0, Glob: tx + ".Txid", Why: "the packed transactions leave the in-memory pool", Rule: "K2"})
 	}
 	poolMapOwner(c)
+	poolReadmission(c)
+}
+
+// poolReadmission (C13, C03): after a walk the rolled-back pool transactions are re-admitted - except those the new
+// chain already confirmed. A confirmed transaction that came back into the pool would be packed into the node's next
+// own block, which the ledger then refuses (the same transaction in two trunk blocks), again and again.
+func poolReadmission(c *q.Ctx) {
+	rc := c.Fn("bcs/ledger/xledger/state::(*State).recoverUnconfirmedTx")
+	if rc == nil {
+		return
+	}
+	has := "ledger.(*Ledger).HasTransaction(p0.sctx.Ledger,p1[#down].Txid)"
+	c.Guard(rc, q.Cond{Canon: has + "#0", Sense: true}, q.ToCallSameIter("State.doTxSync"), q.Opt{
+		From:   "Ledger.HasTransaction",
+		Unless: []q.Cond{{Canon: "(" + has + "#1 == nil)", Sense: false}},
+	})
+	c.ArgIs(rc, "Ledger.HasTransaction", 1, "p1[#down].Txid", 1, "the transaction looked up is the one about to be re-admitted")
+	c.ArgIs(rc, "State.doTxSync", 1, "p1[#down]", 1, "")
 }
 
 // poolMapOwner: the in-memory pool is one map for the life of the Tx object - nobody swaps or empties it wholesale, so
